@@ -34,8 +34,13 @@ def shape_doc(kind, shape):
             return "<a>" + "".join(x(k) for k in kids[j]) + "</a>"
         return x(1)
 
+    if kind == "legacy-json":
+        def g(j):
+            return {"a": [{"id": str(uuid.uuid4())}, {"attributes": {}}, {"content": None}, {"children": [g(k) for k in kids[j]]}]}
+        return json.dumps(g(1))
+
     def d(j):
-        return {"a": [{"id": str(uuid.uuid4())}, {"nsmap": {}}, {"prefix": None}, {"attributes": {}}, {"extras": {}},
+        return {"a": [{"id": None if kind == "json-null-ids" else str(uuid.uuid4())}, {"nsmap": {}}, {"prefix": None}, {"attributes": {}}, {"extras": {}},
                       {"content": None}, {"tail": None}, {"children": [d(k) for k in kids[j]]}]}
     return json.dumps(d(1))
 
@@ -46,7 +51,11 @@ def apply_op(w, op):
         kind, shape = op["args"]
         try:
             doc = shape_doc(kind, shape)
-            root = metapype_io.from_xml(doc) if kind == "xml" else metapype_io.from_json(doc)
+            if kind == "legacy-json":
+                from metapype.model import mp_io
+                root = mp_io.from_json(json.loads(doc))
+            else:
+                root = metapype_io.from_xml(doc) if kind == "xml" else metapype_io.from_json(doc)
             return True, w.track_tree(root), None
         except Exception as e:  # noqa: BLE001
             return False, 0, e
